@@ -211,10 +211,10 @@ export class RangeListManager {
           if (oldSharedKeyMap?.[k] !== undefined || newSharedKeyMap?.[k] !== undefined) {
             updatePathTree[i] = true
           } else {
-            const subTree = (oriUpdatePathTree as { [s: string]: UpdatePathTreeNode })[i] as
-              | { [s: string]: UpdatePathTreeNode }
-              | undefined
-              | true
+            // (the tree of an object list is keyed by the field names, not by the positions)
+            const subTree = (oriUpdatePathTree as { [s: string]: UpdatePathTreeNode })[
+              indexes === null ? i : indexes[i]!
+            ] as { [s: string]: UpdatePathTreeNode } | undefined | true
             if (subTree === undefined) {
               // empty
             } else if (subTree === true || (keyName === '*this' ? subTree : subTree?.[keyName])) {
@@ -223,6 +223,15 @@ export class RangeListManager {
               updatePathTree[i] = subTree
             }
           }
+        }
+        allowFastComparison = false
+      } else if (indexes !== null) {
+        // an object list: the items are looked up by position below, the tree is keyed by field names
+        updatePathTree = new Array(newRawKeys.length)
+        for (let i = 0; i < newRawKeys.length; i += 1) {
+          updatePathTree[i] = (oriUpdatePathTree as { [s: string]: UpdatePathTreeNode })[
+            indexes[i]!
+          ]!
         }
         allowFastComparison = false
       } else {
